@@ -286,3 +286,36 @@ Fixpoint alternating (prev_ask : bool) (tr : list event) : bool :=
 
 Definition strategies_ok (tr : list event) : bool :=
   forallb (fun e => match e with Ask _ strat _ _ => negb (is_oneshot strat) | _ => true end) tr.
+
+(* ---------------- the CBO wrapper around the optimizer (hpo/_cbo.py: CBO._ask / CBO._tell with the flag _asked_not_told) ----------------
+   CBO-level calls, in ANY order (several search() calls, calls that end between an ask and its tell, the public ask / tell
+   interface driven by the user): what reaches the optimizer. *)
+Inductive cop :=
+| CAsk                              (* Search.ask(n) *)
+| CTell (told nonempty : bool)      (* Search.tell(results): told = some result is kept (a number, or a failure unless filter_failures="ignore");
+                                       nonempty = results is not empty *)
+| CDirectTell.                      (* fit_surrogate: Optimizer.tell called directly *)
+
+Inductive kind := KAsk | KTell | KUpd.
+
+Definition kind_of (e : event) : kind := match e with Ask _ _ _ _ => KAsk | Tell _ _ => KTell | UpdateNext _ => KUpd end.
+
+Fixpoint wrap (flag : bool) (ops : list cop) : list kind :=
+  match ops with
+  | [] => []
+  | CAsk :: t => (if flag then [KUpd; KAsk] else [KAsk]) ++ wrap true t
+  | CTell told ne :: t => if told then KTell :: wrap false t else if ne then KUpd :: wrap false t else wrap flag t
+  | CDirectTell :: t => KTell :: wrap flag t
+  end.
+
+Fixpoint alt_k (prev_ask : bool) (ks : list kind) : bool :=
+  match ks with
+  | [] => true
+  | KAsk :: t => negb prev_ask && alt_k true t
+  | _ :: t => alt_k false t
+  end.
+
+Definition kind_eqb (a b : kind) : bool :=
+  match a, b with KAsk, KAsk => true | KTell, KTell => true | KUpd, KUpd => true | _, _ => false end.
+Fixpoint kinds_eqb (a b : list kind) : bool :=
+  match a, b with [] , [] => true | x :: a', y :: b' => kind_eqb x y && kinds_eqb a' b' | _, _ => false end.
